@@ -74,7 +74,7 @@ func checkC01(c *Check, a *Anchors) {
 	sharedWait(c, a)
 	c04RecordAfterSuccess(c, a) // a fingerprint recorded before the commands lets a second, concurrent reference of the dependency return "up to date" while the first is still running its commands
 	c06HashSeesInputs(c, a)     // a dependency call that is deduplicated against a call with other variables never runs
-	c06OnceKey(c, a) // two distinct run: once dependencies must not share an execution key (one of them would never run)
+	c06OnceKey(c, a)            // two distinct run: once dependencies must not share an execution key (one of them would never run)
 }
 
 // rule 1: every command event of the task body is preceded by the dependency runner on its nil edge.
@@ -311,4 +311,3 @@ func c01DepErrorKept(c *Check, a *Anchors) {
 	}
 	c.Floor("dep-error-kept", n, 1)
 }
-
